@@ -492,3 +492,51 @@ pub fn lifted_puppet() -> Box<dyn Contract<PMsg, PQuery>> {
             .with_migrate_empty(e_migrate),
     )
 }
+
+
+// --- flavour 3: ContractWrapper with only some of the optional entry points --------------------------
+
+/// Code tag of a partial puppet: 910 + (reply ? 1 : 0) + (sudo ? 2 : 0) + (migrate ? 4 : 0).
+pub fn partial_tag(reply: bool, sudo: bool, migrate: bool) -> u32 {
+    910 + reply as u32 + 2 * sudo as u32 + 4 * migrate as u32
+}
+
+fn p_execute<const TAG: u32>(deps: DepsMut<PQuery>, env: Env, info: MessageInfo, s: Script) -> StdResult<Response<PMsg>> {
+    interpret::<PMsg, PQuery>(deps, env, Entry::Execute, TAG, Some(info.sender.to_string()), info.funds, &s, None)
+}
+fn p_instantiate<const TAG: u32>(deps: DepsMut<PQuery>, env: Env, info: MessageInfo, s: Script) -> StdResult<Response<PMsg>> {
+    interpret::<PMsg, PQuery>(deps, env, Entry::Instantiate, TAG, Some(info.sender.to_string()), info.funds, &s, None)
+}
+fn p_query<const TAG: u32>(deps: Deps<PQuery>, _env: Env, _m: PuppetQuery) -> StdResult<Binary> {
+    do_query(deps.storage, TAG)
+}
+fn p_sudo<const TAG: u32>(deps: DepsMut<PQuery>, env: Env, s: Script) -> StdResult<Response<PMsg>> {
+    interpret::<PMsg, PQuery>(deps, env, Entry::Sudo, TAG, None, vec![], &s, None)
+}
+fn p_reply<const TAG: u32>(deps: DepsMut<PQuery>, env: Env, msg: Reply) -> StdResult<Response<PMsg>> {
+    let (s, seen) = reply_script(&msg);
+    interpret::<PMsg, PQuery>(deps, env, Entry::Reply, TAG, None, vec![], &s, Some(seen))
+}
+fn p_migrate<const TAG: u32>(deps: DepsMut<PQuery>, env: Env, s: Script) -> StdResult<Response<PMsg>> {
+    interpret::<PMsg, PQuery>(deps, env, Entry::Migrate, TAG, None, vec![], &s, None)
+}
+
+macro_rules! partial {
+    ($tag:expr $(, $with:ident($f:ident))*) => {
+        Box::new(ContractWrapper::new(p_execute::<{ $tag }>, p_instantiate::<{ $tag }>, p_query::<{ $tag }>)$(.$with($f::<{ $tag }>))*) as Box<dyn Contract<PMsg, PQuery>>
+    };
+}
+
+/// A contract assembled by `ContractWrapper::new` with exactly the listed optional entry points.
+pub fn partial_puppet(reply: bool, sudo: bool, migrate: bool) -> Box<dyn Contract<PMsg, PQuery>> {
+    match (reply, sudo, migrate) {
+        (false, false, false) => partial!(910),
+        (true, false, false) => partial!(911, with_reply(p_reply)),
+        (false, true, false) => partial!(912, with_sudo(p_sudo)),
+        (true, true, false) => partial!(913, with_reply(p_reply), with_sudo(p_sudo)),
+        (false, false, true) => partial!(914, with_migrate(p_migrate)),
+        (true, false, true) => partial!(915, with_migrate(p_migrate), with_reply(p_reply)),
+        (false, true, true) => partial!(916, with_sudo(p_sudo), with_migrate(p_migrate)),
+        (true, true, true) => partial!(917, with_migrate(p_migrate), with_sudo(p_sudo), with_reply(p_reply)),
+    }
+}
